@@ -495,6 +495,8 @@ class Generator(AbstractODSGenerator):
 
     def __generate_asset(self, computed_data: ComputedData, output_file: Any, summary_row_index: int) -> int:
         asset: str = computed_data.asset
+        # Rows are only meaningful within the current asset's In-Out sheet
+        self.__in_out_sheet_transaction_2_row.clear()
         transaction_sheet_name: str = self.get_in_out_sheet_name(asset)
         output_sheet_name: str = self.get_tax_sheet_name(asset)
 
